@@ -28,6 +28,10 @@ class Prop(PropBase):
             cs.append(Case(line, tag="frames", nontrivial=line.count(" dr") >= 2, cfgs=[rng.choice(CFGS) for _ in range(2)]))
         for _ in range(150 if tier == "quick" else 3000):
             cs.append(Case(sg.frames(rng, rng.choice([1, 2, 3]), mismatch=True), tag="frames-size-mismatch", oracle=False))
+        for line in sg.padded_rows(rng, 300 if tier == "quick" else 6000):
+            cs.append(Case(line, tag="padded-rows", cfgs=[rng.choice(CFGS) for _ in range(2)]))
+        for line in sg.wide_runs(rng, tier):
+            cs.append(Case(line, sweep="wide-runs", cfgs=[rng.choice(CFGS)]))
         for line, cf in sg.large_canvas_edits(rng, CFGS, tier):
             cs.append(Case(line, sweep="large-canvas-edits", cfgs=cf))
         for line, cf in sg.glyph_byte_edits(CFGS_NOIMM if "CFGS_NOIMM" in globals() else CFGS):
